@@ -114,7 +114,7 @@ def encoder_op(rng, e):
     m = rng.choice(['append_bit', 'append_non_negative_binary_integer', 'append_non_negative_binary_integer', 'append_bits', 'append_bytes',
                     'append_length_determinant', 'append_normally_small_non_negative_whole_number', 'append_normally_small_length',
                     'append_constrained_whole_number', 'append_unconstrained_whole_number', 'align_always', 'align', 'number_of_bytes',
-                    '__iadd__', 'big'])
+                    '__iadd__', 'big', 'as_bytearray'])
     if m == 'append_bit':
         return m, [rng.randint(0, 1)]
     if m == 'append_non_negative_binary_integer':
@@ -147,12 +147,12 @@ def encoder_op(rng, e):
 
 OBJ_FIELDS = {'oer.Encoder': ['number_of_bits', 'value'], 'oer.Decoder': ['number_of_bits', 'total_number_of_bits', 'value'],
               'per.Decoder': ['number_of_bits', 'total_number_of_bits', 'value']}
-PURE_METHODS = {'number_of_bytes', 'number_of_read_bits', 'peek_bit'}
+PURE_METHODS = {'number_of_bytes', 'number_of_read_bits', 'peek_bit', 'as_bytearray'}
 
 
 def oer_encoder_op(rng, e):
     m = rng.choice(['append_bit', 'append_non_negative_binary_integer', 'append_bits', 'append_u8', 'append_bytes', 'append_length_determinant',
-                    'append_integer', 'append_unsigned_integer', 'align', 'number_of_bytes', '__iadd__'])
+                    'append_integer', 'append_unsigned_integer', 'align', 'number_of_bytes', '__iadd__', 'as_bytearray'])
     if m == 'append_bit':
         return m, [rng.randint(0, 1)]
     if m == 'append_non_negative_binary_integer':
@@ -256,7 +256,7 @@ def run(sink, prefixes, seed, n_fn=300, n_seq=60, seq_len=25):
                     req = key + '\t' + '\t'.join([to_sx(before)] + [to_sx(a) for a in args])
                     try:
                         r = getattr(e, m)(*args)
-                        if m == 'number_of_bytes':
+                        if m in ('number_of_bytes', 'as_bytearray'):
                             exp = to_sx(r)
                         elif r is None:
                             exp = to_sx(enc_state(e))
@@ -312,6 +312,16 @@ def run(sink, prefixes, seed, n_fn=300, n_seq=60, seq_len=25):
                 labels.append((key, args))
                 if failed:
                     break                                    # the object may be half-updated after an exception
+    for cls_key in ('per.Decoder', 'oer.Decoder'):
+        if not any(cls_key.startswith(p) or p.startswith(cls_key) for p in prefixes):
+            continue
+        cls = getattr(importlib.import_module(MODULES[cls_key.split('.')[0]]), 'Decoder')
+        for i in range(max(20, n_fn // 6)):
+            data = octets(rng, rng.choice([0, 0, 1, 2, 3, 9, 33, 600]))
+            obj = cls(data)
+            requests.append(cls_key + '.__init__\t' + to_sx(data))
+            expected.append(to_sx([getattr(obj, f) for f in OBJ_FIELDS[cls_key]]))
+            labels.append((cls_key + '.__init__', [data]))
     if not requests:
         return
     p = subprocess.run([TRDRIVER], input='\n'.join(requests) + '\n', stdout=subprocess.PIPE, stderr=subprocess.PIPE, text=True, timeout=600)
@@ -541,6 +551,15 @@ def encoder_reference_search(sink, seed, n_seq=40, seq_len=30):
         hist = []
         for step in range(seq_len):
             m, args = encoder_op(rng, e)
+            if m == 'as_bytearray':
+                sink.count('reference.per.Encoder.as_bytearray')
+                bits = per_encoder_bits(e)
+                bits += '0' * (-len(bits) % 8)
+                want = bytes(int(bits[i:i + 8], 2) for i in range(0, len(bits), 8))
+                if bytes(e.as_bytearray()) != want:
+                    found += 1
+                    sink.violation('per.Encoder.as_bytearray is not the octets of the bits written (zero padded)', {'history': hist[-6:], 'returned': bytes(e.as_bytearray()).hex()[-60:], 'prescribed': want.hex()[-60:]})
+                continue
             if m == 'number_of_bytes':
                 sink.count('reference.per.Encoder.number_of_bytes')
                 if e.number_of_bytes() != (len(per_encoder_bits(e)) + 7) // 8:
